@@ -26,4 +26,4 @@ cp -f "$REPO/go.sum" go.sum 2>/dev/null
 if ! go build "${ovl[@]}" -o "build/chainmc.$id" ./chainmc >&2; then
   echo "chainmc: build failed" >&2; exit 2
 fi
-exec "build/chainmc.$id" -prop "$id" -tier "$tier"
+exec "build/chainmc.$id" -prop "$id" -tier "$tier" ${VERIF_NO_EVIDENCE:+-no-evidence}
